@@ -15,6 +15,8 @@ ASSUMPTIONS = ['callbacks are scripted reactions made of dispatcher operations; 
 
 def base(rng):
     lines, objs, mapping_of = gen_disp.gen_universe(rng, max_classes=3, max_objs=4, mixins=False)
+    if rng.random() < 0.35:
+        lines.append(f'decoy {rng.randint(0, 999)}')      # a second dispatcher in the same process
     ops = [f'add {o}' for o in objs if rng.random() < 0.85]
     if rng.random() < 0.3:
         ops.append(gen_disp.gen_op(rng, objs, ['dispatch']))
